@@ -161,6 +161,37 @@ type Storage struct {
 	CreateFailWithValue bool // a failing CreateAuthRequest still returns the request object
 	FoldEntityCase      bool // GetEntityByID resolves entity IDs case-insensitively
 	KeyFaults map[string]map[int]string // key getter -> occurrence -> malformed record kind
+	// multi-tenant storage: the response signing key depends on the issuer in the request context (one provider
+	// instance serving several hosts); KeyMeet makes overlapping key loads actually overlap
+	TenantKeys map[string]*key.CertificateAndKey
+	KeyMeet    *meeting
+}
+
+// meeting holds every caller until `want` callers are inside (or a short timeout passed): calls that run
+// concurrently then overlap for certain.
+type meeting struct {
+	mu      sync.Mutex
+	want    int
+	inside  int
+	release chan struct{}
+}
+
+func newMeeting(want int) *meeting { return &meeting{want: want, release: make(chan struct{})} }
+
+func (m *meeting) arrive() {
+	m.mu.Lock()
+	m.inside++
+	ch := m.release
+	if m.inside >= m.want {
+		close(m.release)
+		m.release = make(chan struct{})
+		m.inside = 0
+	}
+	m.mu.Unlock()
+	select {
+	case <-ch:
+	case <-time.After(30 * time.Millisecond):
+	}
 }
 
 func newStorage() *Storage {
@@ -234,7 +265,17 @@ func (s *Storage) GetMetadataSigningKey(context.Context) (*key.CertificateAndKey
 	}
 	return s.MetaKey, nil
 }
-func (s *Storage) GetResponseSigningKey(context.Context) (*key.CertificateAndKey, error) {
+func (s *Storage) GetResponseSigningKey(ctx context.Context) (*key.CertificateAndKey, error) {
+	if s.TenantKeys != nil {
+		iss := provider.IssuerFromContext(ctx)
+		if s.KeyMeet != nil {
+			s.KeyMeet.arrive()
+		}
+		s.mu.Lock()
+		s.counts["GetResponseSigningKey"]++
+		s.mu.Unlock()
+		return s.TenantKeys[iss], nil
+	}
 	s.mu.Lock()
 	defer s.mu.Unlock()
 	if err := s.fault("GetResponseSigningKey"); err != nil {
